@@ -377,6 +377,10 @@ def start_meshes(rng, tier):
     V, F = gm.octahedron((2, 3, 1))
     V = np.vstack([V, [[9, 9, 9], [-8, 7, 6]]])
     out.append(("octa_trailing_unreferenced", gm.to_trimesh(V, F)))
+    # every face with vertices of its own (as STL files and creation.box() come): merging has
+    # something to merge, and creases where normals differ
+    V, F = gm.box_int((3, 2, 4), (1, -2, -1))
+    out.append(("box_split_vertices", gm.to_trimesh(V[F].reshape(-1, 3), np.arange(len(F) * 3).reshape(-1, 3))))
     if tier == "thorough":
         V, F = gm.open_grid(3, 2)
         out.append(("open_grid", gm.to_trimesh(V, F)))
@@ -791,6 +795,56 @@ class _step_watchdog:
         return False
 
 
+def _arrays_of(m):
+    return np.array(m.vertices, dtype=np.float64), np.array(m.faces, dtype=np.int64)
+
+
+def arrays_depend_on_reads(mon, run, mesh_tag, base, steps, seed_for_mut, m, hist):
+    """True (and a violation) when the arrays differ from those of the same history without reads."""
+    import trimesh
+
+    if not any(len(s[0]) for s in steps):
+        return False  # this IS the history without reads
+    refs = mon.__dict__.setdefault("array_refs", {})
+    key = (mesh_tag, tuple(s[1] for s in steps), seed_for_mut)
+    if key not in refs:
+        ref = base.copy()
+        try:
+            for s_ in steps:
+                with _step_watchdog(20.0):
+                    res = s_[2](ref, np.random.default_rng(seed_for_mut))
+                if isinstance(res, trimesh.Trimesh):
+                    ref = res
+            refs[key] = _arrays_of(ref)
+        except BaseException:  # noqa: the reference history failed: nothing to compare with
+            refs[key] = None
+        if len(refs) > 4000:
+            refs.pop(next(iter(refs)))
+    if refs[key] is None:
+        return False
+    V0, F0 = refs[key]
+    V1, F1 = _arrays_of(m)
+    run.count("array_history_comparisons")
+    sym = None
+    if V0.shape != V1.shape:
+        sym = "vertex_count"
+    elif F0.shape != F1.shape:
+        sym = "face_count"
+    elif not np.array_equal(F0, F1):
+        sym = "faces"
+    elif not np.allclose(V0, V1, rtol=1e-9, atol=1e-9 * max(1.0, float(np.abs(V0[np.isfinite(V0)]).max()) if np.isfinite(V0).any() else 1.0), equal_nan=True):
+        sym = "vertices"
+    if sym is None:
+        return False
+    mname = steps[-1][1]
+    run.violation(
+        "mut=%s sym=arrays_depend_on_reads:%s" % (mname, sym),
+        "after `%s` the mesh holds different %s than the same history with nothing read before it" % (mname, sym),
+        {"mesh": mesh_tag, "history": hist, "value": "arrays", "n_vertices": [len(V0), len(V1)], "n_faces": [len(F0), len(F1)]},
+    )
+    return True
+
+
 def run_history(mon, run, mesh_tag, base, steps, seed_for_mut):
     """
     steps: list of (read_subset_names, mutator_name, mutator_fn)
@@ -824,6 +878,11 @@ def run_history(mon, run, mesh_tag, base, steps, seed_for_mut):
             m = res
         if len(m.faces) == 0 or len(m.vertices) == 0:
             run.count("emptied_by_mutator")
+        # "which values were read before a mutation never changes what is read after it" also
+        # covers the arrays themselves: the same mutators from the same mesh with NOTHING read
+        # in between must leave the same vertices and faces
+        if not mname.startswith("observer:") and arrays_depend_on_reads(mon, run, mesh_tag, base, steps[: len(hist)], seed_for_mut, m, hist):
+            break
         if not observe:
             # a SILENT step: nothing is read between this mutator and the next one, so values
             # cached before it are still sitting in the cache when the next mutator runs
